@@ -159,6 +159,8 @@ def corpus():
       edit(dg, DG + '_brownian_bridge_bounds', lambda n: isinstance(n, ast.Attribute) and norm(n) == 'TBRMMDiagnostics._bb_bound', 'self._x_mean'))
   add('C08', 'benign: local variable renamed in the x setter', 'benign', None,
       edit(dg, DG + 'corr', lambda n: isinstance(n, ast.Return) and norm(n) == 'return self._corr', 'result = self._corr\n    return result'))
+  add('C08', 'value cached per instance ignores one of its arguments', 'bad', 'R3/memo-key',
+      edit(dg, DG + '_impact_estimate', lambda n: isinstance(n, ast.Return), lambda s, n: 'if getattr(self, "_term_memo", None) is None or self._term_memo[0] != (n_test, flevel):\n      self._term_memo = ((n_test, flevel), term)\n    return self._term_memo[1]'))
   # ---- C14
   add('C14', 'push: < becomes <=', 'bad', 'R1/top-k', edit(hd, 'HeapDict.push', cmp_with(ast.Lt), flip('<', '<=')))
   add('C14', 'push: heappushpop becomes heapreplace', 'bad', 'R1/top-k', edit(hd, 'HeapDict.push', lambda n: isinstance(n, ast.Attribute) and n.attr == 'heappushpop', 'heapq.heapreplace'))
@@ -212,6 +214,9 @@ def corpus():
                                                                       and 'valid date' in norm(n._parent), 'TypeError'))
   add('C20', 'second element of a range ignored', 'bad', 'R4/parse', edit(ut, 'find_days_to_exclude', lambda n: isinstance(n, ast.Subscript) and norm(n) == 'tmp[1]', 'tmp[0]'))
   add('C20', 'TimeWindow ordering guard uses >= (rejects single days)', 'bad', 'R4/ordering-guard', edit(cc, 'TimeWindow.__post_init__', cmp_with(ast.Gt), flip('>', '>=')))
+  add('C20', 'entries parsed with an unanchored regular expression', 'bad', 'R4/parse',
+      edit(ut, 'find_days_to_exclude', lambda n: isinstance(n, ast.Assign) and norm(n.targets[0]) == 'tmp',
+           lambda s, n: "m_ = re.match(r'\\s*(\\d{4}/\\d{1,2}/\\d{1,2})\\s*(?:-\\s*(\\d{4}/\\d{1,2}/\\d{1,2})\\s*)?', x)\n    if m_ is None:\n      raise ValueError('bad entry')\n    tmp = [g_ for g_ in m_.groups() if g_ is not None]"))
   add('C20', 'benign: sorted(set(...))', 'benign', None, edit(ut, 'expand_time_windows', lambda n: isinstance(n, ast.Return), lambda s, n: 'return sorted(set(days_exclude))'))
   # ---- C19
   add('C19', 'report a different list than removed', 'bad', 'R2/report-equals-removal',
@@ -236,6 +241,13 @@ def corpus():
   add('C10', 'benign: local copy of the parameters is modified', 'benign', None,
       edit(mm, MMQ + 'treatment_group_size_range', lambda n: isinstance(n, ast.Assign) and norm(n.targets[0]) == 'treatment_geos_range',
            lambda s, n: 'local_par = dataclasses.replace(self.parameters)\n    treatment_geos_range = local_par.treatment_geos_range'))
+  # conditional copy: the store writes the caller's object on the path that skips the copy (and the twin that always copies)
+  add('C10', 'parameter object written through a conditionally taken copy', 'bad', 'R1/parameters-read-only',
+      edit(mm, MMQ + 'treatment_group_size_range', lambda n: isinstance(n, ast.Assign) and norm(n.targets[0]) == 'treatment_geos_range',
+           lambda s, n: 'par_ = self.parameters\n    if par_.treatment_geos_range is None:\n      par_ = dataclasses.replace(par_)\n    par_.n_designs = par_.n_designs\n    treatment_geos_range = par_.treatment_geos_range'))
+  add('C10', 'benign: parameter copy is always taken before the store', 'benign', None,
+      edit(mm, MMQ + 'treatment_group_size_range', lambda n: isinstance(n, ast.Assign) and norm(n.targets[0]) == 'treatment_geos_range',
+           lambda s, n: 'par_ = self.parameters\n    par_ = dataclasses.replace(par_)\n    par_.n_designs = par_.n_designs\n    treatment_geos_range = par_.treatment_geos_range'))
   # ---- C09
   add('C09', 'revert fix: list(range).pop()', 'bad', 'R1b/empty-container',
       edit(mm, MMQ + 'exhaustive_search', lambda n: isinstance(n, ast.IfExp) and 'treatment_group_sizes' in norm(n), lambda s, n: 'list(self.treatment_group_size_range()).pop()'))
@@ -359,6 +371,10 @@ def corpus():
   add('C12', 'geo index built by iterating the set', 'bad', 'R3/order-taint', edit(mm, MMQ + 'geo_assignments', is_assign_to('geo_index'), lambda s, n: 'geo_index = list(geos_included)'))
   add('C12', 'astype(str) removed from the data side', 'bad', 'R1/canonical-ids', delete_stmt(md, 'TBRMMData.__init__', lambda n: isinstance(n, ast.Assign) and 'astype' in norm(n.value)))
   add('C12', 'absolute threshold on a response-scaled quantity', 'bad', 'R5/dimension', edit(dg, DG + 'aatest', lambda n: isinstance(n, ast.Compare) and norm(n) == 'lower * upper < 0', 'lower * upper < 1e-12'))
+  add('C12', 'budget compared at a fixed number of decimals', 'bad', 'R5/dimension',
+      edit(mm, MMQ + 'exhaustive_search', lambda n: isinstance(n, ast.Assign) and norm(n.targets[0]) == 'req_budget', lambda s, n: 'req_budget = round(req_impact / self.parameters.iroas, 2)'))
+  add('C12', 'benign: a unit-free quantity is rounded', 'benign', None,
+      edit(dg, DG + 'corr_test', lambda n: isinstance(n, ast.Return), lambda s, n: 'corr_rounded_ = round(self.corr, 6)\n    ' + s))
   add('C12', 'benign: sorted(set)', 'benign', None, edit(md, 'TBRMMData.geo_index@setter', lambda n: isinstance(n, ast.Assign) and norm(n.targets[0]) == 'missing_geos' and 'sorted' in norm(n.value),
                                                          lambda s, n: 'missing_geos = sorted(missing_geos)'))
   # ---- C15
